@@ -126,8 +126,52 @@ def check_bins(subset):
     return bad
 
 
+def check_partial_model(tz):
+    """a CalTRACK hourly model assembled with the library's own fitting functions from the segments of SOME months only (as the library's tests do):
+    an hour whose own month has no segment model, or whose hour of week its own month's model never saw, stays unpredicted -- no other month's
+    model contributes to it; hours covered by their own month's model are predicted"""
+    from opendsm.eemeter.common.features import compute_time_features
+    from opendsm.eemeter.models.hourly_caltrack.model import caltrack_hourly_fit_feature_processor, fit_caltrack_hourly_model
+    A, C = three(1) + "-weighted", three(3) + "-weighted"
+    B = three(2) + "-weighted"
+
+    def rows(start, periods):
+        idx = pd.date_range(start=start, periods=periods, freq="h", tz=tz)
+        rng = np.random.default_rng(periods)
+        t = 50 + 30 * np.sin(np.arange(periods) / 9.0) + rng.normal(0, 2, periods)
+        return pd.DataFrame({"hour_of_week": compute_time_features(idx).hour_of_week, "temperature_mean": t,
+                             "meter_value": 5 + 0.05 * t + (idx.hour.values % 12) + rng.normal(0, 0.1, periods), "weight": np.ones(periods)}, index=idx)
+    how = pd.Categorical(range(168))
+    occ = pd.Series([i % 24 in range(8, 18) for i in range(168)], index=how)
+    occ_lookup = pd.DataFrame({A: occ, B: occ, C: occ})
+    flags = pd.Series([True, True, True], index=[30, 60, 90])
+    bins = pd.DataFrame({A: flags, B: flags, C: flags})
+    # the January model saw Monday 00:00 .. Thursday 23:00 only (hours of week 0..95); March saw whole weeks; February has no model
+    dms = {A: caltrack_hourly_fit_feature_processor(A, rows("2018-01-01", 96), occ_lookup, bins, bins),
+           C: caltrack_hourly_fit_feature_processor(C, rows("2018-03-05", 24 * 14), occ_lookup, bins, bins)}
+    res = fit_caltrack_hourly_model(dms, occ_lookup, bins, bins, segment_type="three_month_weighted")
+    idx = pd.date_range("2019-01-01", "2019-03-31 23:00", freq="h", tz=tz)
+    temps = pd.Series(50 + 25 * np.cos(np.arange(len(idx)) / 7.0), index=idx)
+    pred = res.predict(idx, temps).result["predicted_usage"]
+    hw = idx.dayofweek * 24 + idx.hour
+    bad = []
+    feb = pred[idx.month == 2]
+    if feb.notna().any():
+        bad.append(f"February has no segment model, yet {int(feb.notna().sum())} of its {len(feb)} hours were predicted (values {sorted(set(feb.dropna().round(6)))[:3]})")
+    unseen = pred[(idx.month == 1) & (hw >= 96)]
+    if unseen.notna().any():
+        bad.append(f"{int(unseen.notna().sum())} January hours whose hour of week the January model never saw were predicted (values {sorted(set(unseen.dropna().round(6)))[:3]})")
+    seen = pred[(idx.month == 1) & (hw < 96)]
+    mar = pred[idx.month == 3]
+    if seen.isna().any() or mar.isna().any():
+        bad.append("hours covered by their own month's model were not predicted")
+    return bad
+
+
 def replay(case):
     k = case["kind"]
+    if k == "partial_model":
+        return {"ok": not (bad := check_partial_model(case["tz"])), "problems": bad}
     if k == "segments":
         bad = check_segments(case["year"], case["tz"])
     elif k == "time":
@@ -144,7 +188,7 @@ def run(tier="quick", seed=0):
                 "every hour of 2020 (leap) and 2021 in {UTC, America/Chicago, Europe/Berlin, Asia/Tokyo, Australia/Sydney} through the real "
                 "segment_time_series (4 types), compute_time_features and compute_occupancy_feature; the CalTRACK fit/prediction feature "
                 "processors; compute_temperature_bin_features on a 2.5F grid from -40 to 130F plus the endpoints, NaN and +-0 for all 64 subsets "
-                "of {30,45,55,65,75,90}. distinct = case", exhaustive=True, known_findings=load_known("C18"))
+                "of {30,45,55,65,75,90}; a model assembled from the segments of January (four days of the week only) and March, predicting January-March. distinct = case", exhaustive=True, known_findings=load_known("C18"))
     tzs = ["UTC", "America/Chicago", "Europe/Berlin", "Asia/Tokyo", "Australia/Sydney"]
     cases = []
     for tz in tzs:
@@ -154,6 +198,8 @@ def run(tier="quick", seed=0):
             cases.append({"kind": "segments", "year": year, "tz": tz})
             cases.append({"kind": "time", "year": year, "tz": tz})
         cases.append({"kind": "processor", "tz": tz})
+        if tz in ("UTC", "America/Chicago") or tier == "thorough":
+            cases.append({"kind": "partial_model", "tz": tz})
     cand = [30, 45, 55, 65, 75, 90]
     for r in range(7):
         for sub in itertools.combinations(cand, r):
